@@ -316,7 +316,14 @@ pub fn header_parser(i: &[u8]) -> IResult<&[u8], (BlockType, Headers, bool)> {
     let (i, (typ, headers)) = armor_header(i)?;
 
     // "A blank (zero length or containing only whitespace) line"
-    let (i, _) = pair(space0, line_ending).parse(i)?;
+    let (i, _) = match pair(space0, line_ending).parse(i) {
+        Ok(v) => v,
+        // an unfinished (header) line at the end of the buffer: more input is needed
+        Err(nom::Err::Error(_)) if !i.contains(&b'\n') => {
+            return Err(nom::Err::Incomplete(nom::Needed::Unknown))
+        }
+        Err(e) => return Err(e),
+    };
 
     Ok((i, (typ, headers, has_leading_data)))
 }
